@@ -15,27 +15,15 @@ namespace Nri.Ledger
 open Nri.Api Nri.Result
 
 /-- the items of a `LinuxResources` message a plugin sets -/
-def resItems (r : Resources) : List Item :=
-  (resOps r).filterMap fun | .claim it => some it | .clear _ => none
+def resItems (r : Resources) : List Item := resSets r
 
-def unmarkedKeys (keys : List Str) : List Str := keys.filter fun k => !(isMarked k).2
 def markedKeys (keys : List Str) : List Str :=
   keys.filterMap fun k => let (key, m) := isMarked k; if m then some key else none
 
-/-- items a creation adjustment sets on the container being created -/
-def setsAdj (a : Adjustment) : List Item :=
-  (unmarkedKeys (a.annotations.map (·.1))).map .annotation ++
-  (unmarkedKeys (a.mounts.map (·.destination))).map .mount ++
-  (unmarkedKeys (a.env.map (·.key))).map .env ++
-  (if a.args ≠ [] then [.args] else []) ++
-  (if a.hasLinux then
-     (unmarkedKeys (a.devices.map (·.path))).map .device ++
-     (match a.resources with | some r => resItems r | none => []) ++
-     (if a.cgroupsPath ≠ [] then [.cgroupsPath] else []) ++
-     (if a.oomScoreAdj.isSome then [.oomScoreAdj] else [])
-   else []) ++
-  a.rlimits.map (fun l => .rlimit l.type) ++
-  a.cdiDevices.map .cdi
+/-- items a creation adjustment sets on the container being created: the unmarked keys of
+    annotations, mounts, environment, devices; the command line; every resource field given;
+    cgroups path, OOM score, rlimit types, CDI names -/
+def setsAdj (a : Adjustment) : List Item := adjustSets a
 
 /-- items a creation adjustment marks for removal -/
 def removesAdj (a : Adjustment) : List Item :=
